@@ -59,7 +59,13 @@ def rule_boolop_or(ctx, rep):
                 op = next((k.value for k in call.keywords if k.arg == "operator"), None)
                 ok = op is not None and isinstance(op, ast.Call) and last_attr(op.func) == "Or"
                 nested = isinstance(ctx.parents(m).get(id(call)), ast.keyword)
-                rep.check("R-BOOLOP-OR", m.qname, m.loc(call), ok, ("nested:" if nested else "outer:") + unparse(call)[:40],
+                # the construct is named without the method's parameter names (they are spelling): `m.BooleanOperation(left=$1)`
+                pos = {p_: f"${i}" for i, p_ in enumerate(m.positional_params())}
+                shown = ast.parse(unparse(call), mode="eval").body
+                for x in ast.walk(shown):
+                    if isinstance(x, ast.Name) and x.id in pos:
+                        x.id = pos[x.id]
+                rep.check("R-BOOLOP-OR", m.qname, m.loc(call), ok, ("nested:" if nested else "outer:") + unparse(shown)[:40],
                           f"matcher `{unparse(call)[:70]}` accepts any boolean operator: `s.startswith('a') or s.startswith('z') and flag` "
                           "is folded to `s.startswith(('a','z')) and flag` (different truth table)")
     if n < 5:
